@@ -152,14 +152,17 @@ def crash_case(item):
         data["internal_version"] = -1
         data["load_latency"] = {"gpr": 99.0}
         content = pickle.dumps(data)
-    elif kind == "tmpleft":
+    elif kind in ("tmpleft", "tmpleft-own"):
         content = None
     d = make_dir(root, "crash_%s_%s_%d_%d" % (readonly, kind, k, os.getpid()), "A")
     bad = []
     try:
         target = os.path.join(d, _G[("where", readonly)])
         if content is None:
-            with open(target + ".4242.tmp", "wb") as f:  # a writer died before the rename
+            # a writer died before the rename - another process, or (own) this very process in
+            # an earlier attempt, whose process id the next attempt shares
+            pid = 4242 if kind == "tmpleft" else os.getpid()
+            with open(target + ".%d.tmp" % pid, "wb") as f:
                 f.write(P[:k])
         else:
             with open(target, "wb") as f:
@@ -281,7 +284,7 @@ def apply_history(item):
 # ------------------------------------------------------------------------------------------
 # part 3: N processes cold-starting on the same directory (cooperative schedule exploration)
 
-def race_execution(prefix, root, nproc, chunks, initial=None):
+def race_execution(prefix, root, nproc, chunks, initial=None, readonly=False):
     """initial: None (no cache yet) or {path: bytes} of files present before the processes start
     (e.g. a cache file left torn by an interrupted run)"""
     import osaca.semantics.hw_model as hm
@@ -290,7 +293,14 @@ def race_execution(prefix, root, nproc, chunks, initial=None):
     d = _G["race_dir"]
     mp = os.path.join(d, "data", "model.yml")
     c = coop.Coop(prefix)
-    fs = vfs.RaceFS(c, chunks=chunks)
+    if readonly:
+        # data directory not writable: the cache goes to ~/.osaca/cache, which a fresh HOME does
+        # not have yet - the processes race for creating it
+        from osaca import utils
+        fs = vfs.RaceFS(c, chunks=chunks, readonly_dirs=[os.path.join(d, "data")],
+                        virtual_dirs=[utils.CACHE_DIR])
+    else:
+        fs = vfs.RaceFS(c, chunks=chunks)
     if initial:
         fs.files.update(initial)
     saved = (hm.Path, hm.os)
@@ -328,6 +338,7 @@ def race_execution(prefix, root, nproc, chunks, initial=None):
 def race_config(item):
     root, nproc, chunks, bound, maxexec = item[:5]
     start = item[5] if len(item) > 5 else "empty"
+    readonly = start == "readonly-data-dir"
     ref_dig = _G["ref"]["A"][0]
     n = 0
     bad = []
@@ -345,7 +356,7 @@ def race_config(item):
             return item, (0, [], 0)
 
     def mk(prefix):
-        return race_execution(prefix, root, nproc, chunks, initial)
+        return race_execution(prefix, root, nproc, chunks, initial, readonly=readonly)
 
     for choices, (results, errors, final, log) in coop.explore(mk, bound=bound,
                                                                 max_executions=maxexec):
@@ -406,6 +417,7 @@ def run(ctx):
         items += [(root, readonly, "hole", k) for k in cuts[::9]]
         items += [(root, readonly, "flip", k) for k in (0, 1, 2, 10, n // 2, n - 1)]
         items += [(root, readonly, "tmpleft", k) for k in (0, n // 2)]
+        items += [(root, readonly, "tmpleft-own", k) for k in (0, n // 2)]
         items += [(root, readonly, "nondict", 0), (root, readonly, "oldver", 0)]
     out = core.pmap(crash_case, core.rotate(items, ctx.seed))
     for (root_, readonly, kind, k), bad in out:
@@ -457,12 +469,15 @@ def run(ctx):
     res.add_sample({"history": ["run", "editB", "tear", "ro", "run"]})
     # part 3: races
     rplan = [(root, 2, 1, 2, None), (root, 2, 2, 2, None), (root, 3, 1, 1, 1500),
-             (root, 2, 1, 2, None, "torn"), (root, 3, 1, 1, 1500, "torn")]
+             (root, 2, 1, 2, None, "torn"), (root, 3, 1, 1, 1500, "torn"),
+             (root, 2, 1, 2, None, "readonly-data-dir")]
     if ctx.thorough:
         rplan = [(root, 2, 1, None, None), (root, 2, 2, 3, None), (root, 2, 3, 2, None),
                  (root, 3, 1, 2, 6000), (root, 3, 2, 1, 6000),
                  (root, 2, 1, None, None, "torn"), (root, 2, 2, 2, None, "torn"),
-                 (root, 3, 1, 2, 6000, "torn")]
+                 (root, 3, 1, 2, 6000, "torn"),
+                 (root, 2, 1, None, None, "readonly-data-dir"),
+                 (root, 3, 1, 1, 3000, "readonly-data-dir")]
     rout = core.pmap(race_config, rplan, chunk=1)
     skipped_torn = [ritem for ritem, (n, bad, nout) in rout if n == 0]
     for ritem, (n, bad, nout) in rout:
@@ -540,8 +555,10 @@ def replay(ctx, payload):
             race_execution([], root, 1, 1)
             initial = {k: v[:len(v) // 2] for k, v in _LAST_FS["files"].items()
                        if k.endswith(".pickle")}
-        c, obs = race_execution(r["schedule"], root, r["nproc"], r["chunks"], initial)
-        c2, obs2 = race_execution(r["schedule"], root, r["nproc"], r["chunks"], initial)
+        ro = r.get("start") == "readonly-data-dir"
+        c, obs = race_execution(r["schedule"], root, r["nproc"], r["chunks"], initial, readonly=ro)
+        c2, obs2 = race_execution(r["schedule"], root, r["nproc"], r["chunks"], initial,
+                                  readonly=ro)
         assert obs[:3] == obs2[:3], "replay not deterministic"
         print(obs[1], obs[2], obs[3])
         pk = {k: v for k, v in obs[2].items() if k.endswith(".pickle")}
